@@ -74,8 +74,10 @@ B2Variants == {<<>>, ("b2L" :> AsV2([FreshBid("b2L", "buyer2") EXCEPT !.ab = 0],
 AskVariants == {<<>>, ("a1L" :> LegacyAsk)}
 
 Book(a, b1, b2) == [cfg |-> Cfg, asks |-> a, bids |-> b1 @@ b2, extra |-> <<>>]
+\* old-format, current-format and old-format bids in key order (both formats live under one namespace)
 FixedBook == Book(("a1L" :> LegacyAsk), ("b1" :> AsV2(FreshBid("b1", "buyer1"), <<Ev("fill", 1, 2, 1)>>)),
-                  ("b2L" :> [FreshBid("b2L", "buyer2") EXCEPT !.ab = 1, !.aq = 2, !.af = 1]))
+                  ("b2L" :> [FreshBid("b2L", "buyer2") EXCEPT !.ab = 1, !.aq = 2, !.af = 1])
+                  @@ ("b3" :> AsV2(FreshBid("b3", "buyer2"), <<Ev("reject", 1, 2, 1), Ev("fill", 1, 1, 0), Ev("refund", 0, 1, 0)>>)))
 
 AllVersions == {NoVer, "garbage", "1.0", "0.14.9", "0.15.0", "0.16.1", "0.16.2", "0.18.2", "0.19.0", "0.19.1",
                 "1.0.0", "2.0.0", "1.0.0-rc1", "0.16.2-alpha", "1.0.0+build5"}
@@ -107,13 +109,13 @@ ContReqs(S) ==
        {RReverse(k, IF k = "cancel_ask" THEN "seller1" ELSE "exec1", NoFunds, i, NoSize)
           : k \in {"cancel_ask", "expire_ask"}, i \in {"a1L", "a1", "a2"}}
   \cup {RReverse(k, IF k = "cancel_bid" THEN (IF i = "b1" THEN "buyer1" ELSE "buyer2") ELSE "exec1", NoFunds, i, NoSize)
-          : k \in {"cancel_bid", "expire_bid"}, i \in {"b1", "b2L", "b2"}}
+          : k \in {"cancel_bid", "expire_bid"}, i \in {"b1", "b2L", "b2", "b3"}}
   \cup {RReverse("reject_bid", "exec1", NoFunds, i, s) : i \in {"b1", "b2L"}, s \in {NoSize, 1}}
   \cup {RReverse("reject_ask", "exec1", NoFunds, "a1L", 1)}
   \cup {RCreateAsk("seller2", Coins1("base", 2), "a2", "base", "q1", P(1), 2)}
   \cup {RMatch("exec1", NoFunds, "a2", "b1", p, s) : p \in {P(1), P(2)}, s \in {1, 2}}
   \cup {RMatch("exec1", NoFunds, "a1L", "b1", P(1), 1), RMatch("exec1", NoFunds, "a2", "b2L", P(1), 1)}
-  \cup {RQuery("query_ask", i) : i \in {"a1L", "a1", "a2"}} \cup {RQuery("query_bid", i) : i \in {"b1", "b2L", "b2"}}
+  \cup {RQuery("query_ask", i) : i \in {"a1L", "a1", "a2"}} \cup {RQuery("query_bid", i) : i \in {"b1", "b2L", "b2", "b3"}}
   \cup {RQuery("query_cfg", ""), RQuery("query_ver", "")}
   \cup {ModifyNothing("exec1")}
 
